@@ -23,7 +23,7 @@ def main():
     assert sh("git -C /repo worktree add -q --detach %s HEAD" % WT).returncode == 0
     ran = []
     try:
-        flags = "-std=c++17 -g -O1 -fsanitize=address,undefined -fno-sanitize-recover=undefined"
+        flags = "-std=c++17 -g -O1 -fsanitize=address,undefined -fno-sanitize-recover=undefined " + os.environ.get("ADOPT_FLAGS", "")
         env = dict(os.environ, ASAN_OPTIONS="detect_leaks=1:abort_on_error=0", UBSAN_OPTIONS="print_stacktrace=1")
         demo = os.path.join(src, "demo.cpp")
         c0 = sh("g++ %s -I %s/Include %s -o /tmp/adopt_demo0 -pthread" % (flags, WT, demo))
